@@ -77,7 +77,28 @@ Fixpoint model_mismatches (i : nat) (cs : list case) : list (nat * nat) :=
    class 5: BeginBlock(h) "paid" a delegator a NEGATIVE matured undelegation (debited him)
    class 6: BeginBlock(h) "paid" a delegator a NEGATIVE matured reward withdrawal
    class 7: a delegator's balance is negative
-   class 8: an active delegation entry is negative *)
+   class 8: an active delegation entry is negative
+   class 9: the rewards credited to the delegators in BeginBlock are not proportional to the active
+            delegations at the beginning of the block: there is no total D >= 0 with
+            accrual(a) = floor (D * active(a) / pool) for every delegator that has an active key and
+            0 for the others (handleDelegationRewards iterates the COMMITTED active keys, so this
+            also checks that keys first written in the previous block are seen, and that a
+            reinvestment raises the share from the next block on) *)
+Definition cdiv (x y : Z) : Z := (x + y - 1) / y.
+Definition lookup_al (l : list (addr * Z)) (a : addr) : option Z :=
+  match find (fun x => (x.1 =? a)%N) l with Some x => Some x.2 | None => None end.
+Definition accr_proportional (n : nat) (prev : snap) (accr : list (addr * Z)) : bool :=
+  let P := s_pool prev in
+  let acc a := default 0 (lookup_al accr a) in
+  if P <=? 0 then forallb (fun a => acc a =? 0) (idxs n)
+  else
+    let withkey := List.filter (fun a => match lookup_al (s_active prev) a with Some v => 0 <? v | None => false end) (idxs n) in
+    let nokey := List.filter (fun a => match lookup_al (s_active prev) a with Some v => v <=? 0 | None => true end) (idxs n) in
+    let act a := default 0 (lookup_al (s_active prev) a) in
+    let lo := fold_right Z.max 0 (map (fun a => cdiv (acc a * P) (act a)) withkey) in
+    let his := map (fun a => cdiv ((acc a + 1) * P) (act a) - 1) withkey in
+    forallb (fun a => acc a =? 0) nokey && forallb (fun a => 0 <=? acc a) withkey
+    && forallb (fun hi => lo <=? hi) his.
 Definition lsum (l : list (addr * Z)) : Z := fold_right (fun x acc => x.2 + acc) 0 l.
 Definition lget (l : list ((N * addr) * Z)) (n : N) (a : addr) : Z :=
   pget (list_to_map l) n a.
@@ -121,6 +142,10 @@ Fixpoint monitor (n : nat) (k : N) (i : nat) (m : mon) (ops : list op) (res : li
                         then [] else [3%nat])
                        ++ (if forallb (fun a => 0 <=? m_dueu m h' a) (idxs n) then [] else [5%nat])
                        ++ (if forallb (fun a => 0 <=? m_duer m h' a) (idxs n) then [] else [6%nat])
+                       ++ (match o with
+                           | Begin accr => if accr_proportional n (m_prev m) accr then [] else [9%nat]
+                           | _ => []
+                           end)
                    | _ => []
                    end) ++ snap_classes m' cur in
       map (fun cl => (i, cl)) here ++ monitor n k (S i) m' ops' res' snaps'
